@@ -10,6 +10,7 @@ import (
 	"go/token"
 	"go/types"
 	"regexp"
+	"sort"
 	"strings"
 
 	"golang.org/x/tools/go/packages"
@@ -1169,4 +1170,222 @@ func twinAssignIssues(p *core.Prog, pkgs []*packages.Package) (issues []twinAssi
 		}
 	}
 	return
+}
+
+// permuted arms: the two arms of an if/else on a boolean switch contain the same statements (up to identifiers) but
+// not in the same order — one arm was written by copying the other and two of its steps were swapped.
+type permIssue struct {
+	Fi   *core.FuncInfo
+	Pos  token.Pos
+	Key  string
+	Text string
+}
+
+func stmtShapes(fset *token.FileSet, b *ast.BlockStmt) []string {
+	var out []string
+	var walk func(list []ast.Stmt, depth int)
+	shape := func(n ast.Node) string {
+		var buf bytes.Buffer
+		if err := printer.Fprint(&buf, fset, n); err != nil {
+			return "?"
+		}
+		var s scanner.Scanner
+		fs := token.NewFileSet()
+		f := fs.AddFile("", fs.Base(), buf.Len())
+		s.Init(f, buf.Bytes(), nil, 0)
+		var sb strings.Builder
+		for {
+			_, tok, lit := s.Scan()
+			if tok == token.EOF {
+				break
+			}
+			switch {
+			case tok == token.IDENT:
+				sb.WriteString("ID ")
+			case tok == token.SEMICOLON:
+			case lit != "":
+				sb.WriteString(lit + " ")
+			default:
+				sb.WriteString(tok.String() + " ")
+			}
+		}
+		return sb.String()
+	}
+	walk = func(list []ast.Stmt, depth int) {
+		for _, st := range list {
+			switch x := st.(type) {
+			case *ast.BlockStmt:
+				walk(x.List, depth+1)
+			case *ast.IfStmt:
+				out = append(out, fmt.Sprintf("%d if %s", depth, shape(x.Cond)))
+				walk(x.Body.List, depth+1)
+				if eb, ok := x.Else.(*ast.BlockStmt); ok {
+					out = append(out, fmt.Sprintf("%d else", depth))
+					walk(eb.List, depth+1)
+				} else if x.Else != nil {
+					out = append(out, fmt.Sprintf("%d elseif", depth))
+					walk([]ast.Stmt{x.Else}, depth+1)
+				}
+			case *ast.ForStmt:
+				out = append(out, fmt.Sprintf("%d for", depth))
+				walk(x.Body.List, depth+1)
+			case *ast.RangeStmt:
+				out = append(out, fmt.Sprintf("%d range %s", depth, shape(x.X)))
+				walk(x.Body.List, depth+1)
+			default:
+				out = append(out, fmt.Sprintf("%d %s", depth, shape(st)))
+			}
+		}
+	}
+	walk(b.List, 0)
+	return out
+}
+
+func permutedArmIssues(p *core.Prog, pkgs []*packages.Package) (issues []permIssue, ncmp int) {
+	for _, pk := range pkgs {
+		for _, fi := range p.Funcs(pk) {
+			if fi.Decl.Body == nil {
+				continue
+			}
+			counts := map[string]int{}
+			ast.Inspect(fi.Decl.Body, func(n ast.Node) bool {
+				ifs, ok := n.(*ast.IfStmt)
+				if !ok {
+					return true
+				}
+				eb, ok := ifs.Else.(*ast.BlockStmt)
+				if !ok {
+					return true
+				}
+				cond := ast.Unparen(ifs.Cond)
+				if u, ok := cond.(*ast.UnaryExpr); ok && u.Op == token.NOT {
+					cond = ast.Unparen(u.X)
+				}
+				switch cond.(type) {
+				case *ast.Ident, *ast.SelectorExpr:
+				default:
+					return true
+				}
+				a, b := stmtShapes(fi.Pkg.Fset, ifs.Body), stmtShapes(fi.Pkg.Fset, eb)
+				if len(a) != len(b) || len(a) < 3 {
+					return true
+				}
+				same := true
+				for i := range a {
+					if a[i] != b[i] {
+						same = false
+					}
+				}
+				sa, sb := append([]string{}, a...), append([]string{}, b...)
+				sort.Strings(sa)
+				sort.Strings(sb)
+				multiset := true
+				for i := range sa {
+					if sa[i] != sb[i] {
+						multiset = false
+					}
+				}
+				if !multiset {
+					return true
+				}
+				ncmp++
+				if same {
+					return true
+				}
+				// a different order matters only when the swapped steps depend on each other: one arm sets a place and
+				// then reads it, the other reads it first
+				if !orderDependenceDiffers(fi.Pkg.Fset, ifs.Body, eb) {
+					return true
+				}
+				first := ""
+				for i := range a {
+					if a[i] != b[i] {
+						first = fmt.Sprintf("step %d", i+1)
+						break
+					}
+				}
+				key := fmt.Sprintf("permuted:%s:if %s", fname(fi), exprStr(ifs.Cond))
+				counts[key]++
+				if counts[key] > 1 {
+					key = fmt.Sprintf("%s#%d", key, counts[key])
+				}
+				issues = append(issues, permIssue{fi, ifs.Pos(), key, first})
+				return true
+			})
+		}
+	}
+	return
+}
+
+// orderDependenceDiffers: some block of arm A has a plain assignment to a place E followed by a statement that reads
+// E, while the statements of the same two shapes occur in arm B in the opposite order (read first, then the write) —
+// or the other way round.
+func orderDependenceDiffers(fset *token.FileSet, a, b *ast.BlockStmt) bool {
+	type pair struct{ w, r string }
+	collect := func(arm *ast.BlockStmt) (writeThenRead, readThenWrite map[pair]bool) {
+		writeThenRead, readThenWrite = map[pair]bool{}, map[pair]bool{}
+		shape := func(n ast.Node) string {
+			ss := stmtShapes(fset, &ast.BlockStmt{List: []ast.Stmt{n.(ast.Stmt)}})
+			if len(ss) == 0 {
+				return ""
+			}
+			return ss[0]
+		}
+		ast.Inspect(arm, func(n ast.Node) bool {
+			blk, ok := n.(*ast.BlockStmt)
+			if !ok {
+				return true
+			}
+			type st struct {
+				shape  string
+				writes string
+				reads  map[string]bool
+			}
+			var sts []st
+			for _, x := range blk.List {
+				e := st{shape: shape(x), reads: map[string]bool{}}
+				rhsOnly := ast.Node(x)
+				if as, ok := x.(*ast.AssignStmt); ok && len(as.Lhs) == 1 {
+					if as.Tok == token.ASSIGN {
+						if _, isSel := ast.Unparen(as.Lhs[0]).(*ast.SelectorExpr); isSel {
+							e.writes = exprStr(as.Lhs[0])
+						}
+						rhsOnly = as.Rhs[0]
+					}
+				}
+				ast.Inspect(rhsOnly, func(m ast.Node) bool {
+					if sel, ok := m.(*ast.SelectorExpr); ok {
+						e.reads[exprStr(sel)] = true
+					}
+					return true
+				})
+				sts = append(sts, e)
+			}
+			for i := range sts {
+				for j := i + 1; j < len(sts); j++ {
+					if sts[i].writes != "" && sts[j].reads[sts[i].writes] {
+						writeThenRead[pair{sts[i].shape, sts[j].shape}] = true
+					}
+					if sts[j].writes != "" && sts[i].reads[sts[j].writes] {
+						readThenWrite[pair{sts[j].shape, sts[i].shape}] = true
+					}
+				}
+			}
+			return true
+		})
+		return
+	}
+	awr, arw := collect(a)
+	bwr, brw := collect(b)
+	for p := range awr {
+		if brw[p] {
+			return true
+		}
+	}
+	for p := range bwr {
+		if arw[p] {
+			return true
+		}
+	}
+	return false
 }
